@@ -2,6 +2,7 @@ package lang
 
 import (
 	"fmt"
+	"sort"
 	"strconv"
 	"strings"
 )
@@ -226,8 +227,9 @@ func (v *Value) prettyStringInteral(rootValues []*Value, quote bool, checkCircul
 	case ValueObj:
 		var sb strings.Builder
 		sb.WriteByte('{')
-		index := 0
-		for key, value := range *v.Obj {
+		// sorted keys: Go's map order is random, the output must not be
+		for index, key := range sortedKeys(*v.Obj) {
+			value := (*v.Obj)[key]
 			if index > 0 {
 				sb.WriteString(", ")
 			}
@@ -235,13 +237,21 @@ func (v *Value) prettyStringInteral(rootValues []*Value, quote bool, checkCircul
 			sb.WriteString("\"" + key + "\"")
 			sb.WriteString(": ")
 			sb.WriteString(value.Value.prettyStringInteral(append(rootValues, v), true, true))
-			index++
 		}
 		sb.WriteByte('}')
 		return sb.String()
 	default:
 		return fmt.Sprintf("<%s>", v.Tag.String())
 	}
+}
+
+func sortedKeys(obj map[string]*Cell) []string {
+	keys := make([]string, 0, len(obj))
+	for key := range obj {
+		keys = append(keys, key)
+	}
+	sort.Strings(keys)
+	return keys
 }
 
 func (v *Value) GetMember(member Value) (*Cell, error) {
